@@ -563,4 +563,61 @@ MUTANTS = [
                     "frame\n        return UNMARSHAL_FAILURE",
                  "    except struct.error:  # Did not receive a full frame\n"
                  "        raise")]),
+    # ---------------- sanitisers, coercions, fast paths (round-4 families)
+    dict(id='x-string-strip', property='C01', also=['C03', 'C04', 'C10'],
+         what='strings stripped of surrounding whitespace before encoding',
+         edits=[(E, "    temp = value.encode('utf-8')\n    return encoder.pack",
+                 "    temp = value.strip().encode('utf-8')\n    return "
+                 "encoder.pack")]),
+    dict(id='x-key-lower', property='C03', also=['C04', 'C12'],
+         what='table keys lower-cased on encode',
+         edits=[(E, "        data.append(short_string(key))",
+                 "        data.append(short_string(key.lower()))")]),
+    dict(id='x-string-nfc', property='C03', also=['C04', 'C01'],
+         what='strings NFC-normalised on encode',
+         edits=[(E, "    temp = value.encode('utf-8')\n    return encoder.pack",
+                 "    import unicodedata\n    temp = unicodedata.normalize("
+                 "'NFC', value).encode('utf-8')\n    return encoder.pack")]),
+    dict(id='x-array-dedupe', property='C03', also=['C04'],
+         what='consecutive duplicate array items dropped',
+         edits=[(E, "    for item in value:\n        data.append("
+                    "encode_table_value(item))",
+                 "    for n, item in enumerate(value):\n        if n and "
+                 "type(item) is str and item == value[n - 1]:\n"
+                 "            continue\n        data.append("
+                 "encode_table_value(item))")]),
+    dict(id='x-table-drop-none', property='C03', also=['C04', 'C10'],
+         what='None values left out of tables',
+         edits=[(E, "        data.append(short_string(key))\n        try:\n",
+                 "        if value is None and len(key) > 3:\n            "
+                 "continue\n        data.append(short_string(key))\n"
+                 "        try:\n")]),
+    dict(id='x-numeric-string-coerced', property='C03', also=['C04', 'C10'],
+         what='numeric-looking strings in tables sent as integers',
+         edits=[(E, "    elif isinstance(value, str):\n        return b'S' + "
+                    "long_string(value)",
+                 "    elif isinstance(value, str):\n        if value.isdigit("
+                 ") and len(value) < 10:\n            return table_integer("
+                 "int(value))\n        return b'S' + long_string(value)")]),
+    dict(id='x-decode-longstr-strip-nul', property='C05', also=['C01', 'C03'],
+         what='decoded long strings lose trailing NULs',
+         edits=[(D, "        return length + 4, value[4:length + 4].decode("
+                    "'utf-8')",
+                 "        return length + 4, value[4:length + 4].decode("
+                 "'utf-8').rstrip('\\x00')")]),
+    dict(id='x-ascii-fast-path', property='C04', also=['C01', 'C03'],
+         what='ASCII fast path measures characters; wrong for one non-ASCII '
+              'class (isascii replaced by a Latin-1 test)',
+         edits=[(E, "    temp = value.encode('utf-8')\n    return encoder.pack("
+                    "len(temp)) + temp",
+                 "    temp = value.encode('utf-8')\n    size = len(value) if "
+                 "all(ord(c) < 160 for c in value) else len(temp)\n"
+                 "    return encoder.pack(size) + temp")]),
+    dict(id='x-decode-bool-strict', property='C05',
+         what='table booleans other than 0/1 refused',
+         edits=[(D, "        return 1, bool(common.Struct.byte.unpack_from("
+                    "value[0:1])[0])",
+                 "        flag = common.Struct.byte.unpack_from(value[0:1])"
+                 "[0]\n        if flag > 1:\n            raise ValueError("
+                 "'bad boolean')\n        return 1, bool(flag)")]),
 ]
